@@ -41,9 +41,8 @@ MUTS = ["wake_strict", "wake_early", "min_latest", "cancel_noop", "timeout_prefe
 MUT_EXPECT = {"wake_strict": "AlwaysFires", "wake_early": "NeverEarly", "min_latest": "MinTimeoutCorrect",
               "cancel_noop": "WheelExact", "timeout_prefers_timer": "TimeoutExact", "interval_drift": "IntervalAligned"}
 # actions that a configuration cannot take by construction
-IGNORE_ZERO = {"MC_Timer_sleep3.cfg": {"CreateTimeout", "CreateInterval", "FinishInner", "DropTick",
-                                       "PollTimeoutObj", "PollIntervalObj"},
-               "MC_Timer_live.cfg": {"CreateTimeout", "FinishInner", "PollTimeoutObj"}}
+IGNORE_ZERO = {"MC_Timer_sleep3.cfg": {"CreateTimeout", "CreateInterval", "FinishInner", "DropTick"},
+               "MC_Timer_live.cfg": {"CreateTimeout", "FinishInner"}}
 
 
 def _summary(binname, out, err):
@@ -83,7 +82,8 @@ GC = ["-XX:ParallelGCThreads=2"]
 
 
 def model_check(cfg, workers, timeout, liveness=False):
-    r = vlib.tlc("Timer", cfg, workers=workers, timeout=timeout, jvm=GC)
+    r = vlib.tlc("Timer", cfg, workers=workers, timeout=timeout, jvm=GC,
+                 extra=["-lncheck", "final"] if liveness else None)
     vlib.require_model_ok(r, "Timer/" + cfg)
     z = vlib.zero_actions(r, ignore=IGNORE_ZERO.get(cfg, ()))
     if z:
@@ -159,7 +159,7 @@ def run(run, tier, replay):
             return
 
         quick = tier == "quick"
-        ex = cf.ThreadPoolExecutor(max_workers=10)
+        ex = cf.ThreadPoolExecutor(max_workers=8 if quick else 6)
         # ---- everything that needs a JVM or cargo starts at once (1-2 workers each; the fixed cost of a TLC
         #      start dominates the small configurations) ----
         f_sany = [ex.submit(vlib.sany, m) for m in ("Timer", "Gen_Timer")]
@@ -171,7 +171,7 @@ def run(run, tier, replay):
         f_mut = [ex.submit(mutation_control, m) for m in muts[:1]]
         p_ex = os.path.join(tmp, "gen_exhaustive.jsonl")
         p_sim = os.path.join(tmp, "gen_full_sim.jsonl")
-        f_gex = ex.submit(generate, "Gen_Timer.cfg", p_ex, None, None, 1500, 1 if quick else 2)
+        f_gex = ex.submit(generate, "Gen_Timer.cfg", p_ex, None, None, 1500, 2)
         f_gsim = ex.submit(generate, "Gen_Timer_full.cfg", p_sim, 3000 if quick else 40000, 8, 1700)
         f_gen_more = []
         for f in f_sany:
@@ -179,12 +179,13 @@ def run(run, tier, replay):
         got = dict(f.result() for f in f_mut)
         if not quick:
             f_models.append(("Timer/MC_Timer_thorough.cfg", ex.submit(model_check, "MC_Timer_thorough.cfg", 3, 1700)))
+            f_models.append(("Timer/MC_Timer_thorough2.cfg", ex.submit(model_check, "MC_Timer_thorough2.cfg", 2, 1700)))
             for cfg in ("Gen_Timer_sleep3.cfg", "Gen_Timer_one.cfg"):
                 f_gen_more.append((cfg, ex.submit(generate, cfg, os.path.join(tmp, cfg + ".jsonl"), None, None, 1500, 1)))
             f_mut2 = [ex.submit(mutation_control, m) for m in muts[1:]]
             f_unfair = ex.submit(unfair_control)
             f_models.append(("Timer/MC_Timer_sleep3.cfg", ex.submit(model_check, "MC_Timer_sleep3.cfg", 1, 1500)))
-            f_models.append(("Timer/MC_Timer_thorough2.cfg", ex.submit(model_check, "MC_Timer_thorough2.cfg", 2, 1700)))
+            f_models.append(("Timer/MC_Timer_mid.cfg", ex.submit(model_check, "MC_Timer_mid.cfg", 1, 1500)))
             f_models.append(("Timer/MC_Timer_live_thorough.cfg (FairSpec)",
                              ex.submit(model_check, "MC_Timer_live_thorough.cfg", 1, 1700, True)))
         if not quick:
